@@ -155,6 +155,31 @@ theorem document_iff_live (ops : List Op) (id : Bytes) :
     ((applyOps {} ops).document id).isSome = true ↔ id ∈ (applyOps {} ops).liveIds :=
   get_some_iff_mem _ _ (wf_applyOps ops {} wf_init).1
 
+/-- **Re-submitting a batch is harmless** (a retry after an ambiguous failure): replaying the same
+    operation list a second time changes no `Document` answer. -/
+theorem resubmit_idempotent (s : Spec) (ops : List Op) (id : Bytes) :
+    (applyOps (applyOps s ops) ops).document id = (applyOps s ops).document id := by
+  rw [document_last_write_wins ops (applyOps s ops) id]
+  cases h : lastDocOp id ops with
+  | none => rfl
+  | some r =>
+    rw [document_last_write_wins ops s id, h]
+
+/-- operations on other ids never change `Document(id)`: the answer for an id depends only on the
+    operations that mention it -/
+theorem document_frame (s : Spec) (ops : List Op) (id : Bytes) (h : lastDocOp id ops = none) :
+    (applyOps s ops).document id = s.document id := by
+  rw [document_last_write_wins ops s id, h]
+
+/-- two operation lists that agree on the last operation of every id yield the same answers — in
+    particular any reordering of a batch that keeps the relative order of the operations on each id -/
+theorem document_depends_on_last (s : Spec) (ops₁ ops₂ : List Op) (id : Bytes)
+    (h : lastDocOp id ops₁ = lastDocOp id ops₂) :
+    (applyOps s ops₁).document id = (applyOps s ops₂).document id := by
+  rw [document_last_write_wins ops₁ s id, document_last_write_wins ops₂ s id, h]
+
+example : (applyOps (applyOps {} [.index [1] [10], .delete [2]]) [.index [1] [10], .delete [2]]).document [1] = some [10] := by decide
+
 example : (applyBatches {} [[.index [1] [10], .delete [1], .index [1] [11]], [], [.index [2] [20], .delete [3]]]).liveIds
     = [[1], [2]] := by decide
 
